@@ -115,7 +115,10 @@ func (p *copyProp) Gen(r *Rand, tier string, idx int) any {
 	if r.Chance(0.2) {
 		maxN = 25
 	}
-	o := GraphOpts{MaxNodes: maxN, Referrers: true}
+	if tier == "thorough" && r.Chance(0.25) {
+		maxN = 40
+	}
+	o := GraphOpts{MaxNodes: maxN, Referrers: true, SHA512: true}
 	if cp.SrcKind == "file" || cp.DstKind == "file" {
 		o.Titles = true
 	}
@@ -1047,8 +1050,36 @@ func (p *copyProp) runInBubble(rc *RunCtx, sc *Scenario, cp *CopyParams, g *Grap
 }
 
 func probeCopy(info *RunInfo, ex *copyExec, cp *CopyParams) {
-	for _, l := range ex.res.Log {
-		_ = l
+	parents := map[int]int{}
+	for _, ns := range cp.Graph.Nodes {
+		seen := map[int]bool{}
+		for _, c := range ns.Children {
+			if seen[c] {
+				info.Probes["same_blob_listed_twice"]++
+			}
+			if !seen[c] {
+				parents[c]++
+			}
+			seen[c] = true
+		}
+	}
+	for _, k := range parents {
+		if k >= 2 {
+			info.Probes["node_shared_by_parents"]++
+			break
+		}
+	}
+	mountOK, onMounted := 0, 0
+	for _, e := range ex.mon.events {
+		if e.Store == "dst" && e.Op == "Mount" && e.Phase == "return" && !e.Err {
+			mountOK++
+		}
+		if e.Store == "cb" && e.Op == "OnMounted" && e.Phase == "invoke" {
+			onMounted++
+		}
+	}
+	if mountOK > onMounted {
+		info.Probes["mount_fell_back_to_copy"] += mountOK - onMounted
 	}
 	conc := cp.Concurrency
 	if conc <= 0 {
